@@ -53,6 +53,28 @@ var (
 	}
 )
 
+
+// rapid's integer and index generators are deliberately biased towards small
+// values, which is welcome for setting values but not for structural choices
+// (schema version, mutation kind, position in the text).  vfUniform spreads a
+// (biased) 64-bit draw with a multiplicative hash; 0, the value rapid shrinks
+// to, maps to 0.
+func vfUniform(t *rapid.T, label string, n int) int {
+	x := rapid.Uint64().Draw(t, label)
+
+	return int(((x * 0x9E3779B97F4A7C15) >> 20) % uint64(n))
+}
+
+// vfChance is true in about pct percent of the draws and false when shrunk.
+func vfChance(t *rapid.T, label string, pct int) bool {
+	return vfUniform(t, label, 100) >= 100-pct
+}
+
+// vfPick draws an element about uniformly; shrinks to the first.
+func vfPick[E any](t *rapid.T, label string, pool []E) E {
+	return pool[vfUniform(t, label, len(pool))]
+}
+
 // vfHostileStrings are strings that a YAML round trip must not change.
 var vfHostileStrings = []string{
 	"", " ", "x", "null", "~", "true", "yes", "on", "No", "123", "0x1F", "0o17", "1e3", "1_000", ".inf", ".nan",
@@ -110,7 +132,7 @@ func vfValueGen(t *rapid.T, label string, depth int) any {
 // vfExtras draws 0-2 unknown keys (names no migration step mentions).
 func vfExtras(t *rapid.T, label string, p int) (m vfMap) {
 	m = vfMap{}
-	if rapid.IntRange(0, 99).Draw(t, label+"_has") >= p {
+	if !vfChance(t, label+"_has", p) {
 		return m
 	}
 	n := rapid.IntRange(1, 2).Draw(t, label+"_n")
@@ -230,11 +252,6 @@ func vfDrawSettings(t *rapid.T, v int, withAuth bool) (s *vfSettings) {
 			"enabled": false, "server_name": str("tls_sn", []string{"", "dns.example.org"}), "port_https": 443,
 			"port_dns_over_tls": 853, "certificate_chain": "", "private_key": "",
 		},
-	}
-
-	if !s.StatsEnabled && v >= 16 && v < 20 && b("stats_zero_days") {
-		// "interval: 0" of a disabled statistics module (schemas 16..19)
-		s.StatsDays = 0
 	}
 
 	// Lists that had a single value in the oldest schemas.
@@ -470,16 +487,16 @@ func vfMutate(t *rapid.T, doc vfMap, other vfMap, i int) (desc string) {
 		return "x_vf_only:extra"
 	}
 
-	kind := rapid.SampledFrom([]string{
-		"null", "null", "null", "delete", "scalar", "scalar", "swap_container", "nested_null", "empty", "inject",
-		"inject", "extra",
-	}).Draw(t, l+"kind")
+	kind := vfPick(t, l+"kind", []string{
+		"null", "null", "null", "delete", "scalar", "scalar", "swap_container", "swap_container", "nested_null",
+		"nested_null", "empty", "inject", "inject", "extra",
+	})
 
 	switch kind {
 	case "inject":
 		// a key of another schema's layout, at top level or inside dns
 		keys := vfSortedKeys(other)
-		k := rapid.SampledFrom(keys).Draw(t, l+"inject_key")
+		k := vfPick(t, l+"inject_key", keys)
 		if k == "schema_version" {
 			k = "dns"
 		}
@@ -493,7 +510,7 @@ func vfMutate(t *rapid.T, doc vfMap, other vfMap, i int) (desc string) {
 				}
 			}
 			if dst != nil && len(od) > 0 {
-				sk := rapid.SampledFrom(vfSortedKeys(od)).Draw(t, l+"inject_subkey")
+				sk := vfPick(t, l+"inject_subkey", vfSortedKeys(od))
 				dst[sk] = vfClone(od[sk])
 
 				return k + "." + sk + ":inject"
@@ -508,7 +525,7 @@ func vfMutate(t *rapid.T, doc vfMap, other vfMap, i int) (desc string) {
 		if rapid.Bool().Draw(t, l+"extra_top") {
 			target = doc
 		} else {
-			s := rapid.SampledFrom(tops).Draw(t, l+"extra_in")
+			s := vfPick(t, l+"extra_in", tops)
 			if sm, ok := s.get().(vfMap); ok {
 				target, where = sm, s.path
 			} else {
@@ -523,11 +540,10 @@ func vfMutate(t *rapid.T, doc vfMap, other vfMap, i int) (desc string) {
 	}
 
 	var s vfSlot
-	if rapid.IntRange(0, 99).Draw(t, l+"top") < 40 {
-		s = rapid.SampledFrom(tops).Draw(t, l+"slot_top")
+	if vfChance(t, l+"top", 40) {
+		s = vfPick(t, l+"slot_top", tops)
 	} else {
-		idx := rapid.IntRange(0, len(slots)-1).Draw(t, l+"slot")
-		s = slots[idx]
+		s = vfPick(t, l+"slot", slots)
 		if s.top && s.key == "schema_version" {
 			s = tops[0]
 		}
@@ -583,7 +599,7 @@ func vfMutate(t *rapid.T, doc vfMap, other vfMap, i int) (desc string) {
 			if len(x) == 0 {
 				x["x_vf_null"] = nil
 			} else {
-				x[rapid.SampledFrom(vfSortedKeys(x)).Draw(t, l+"nested_key")] = nil
+				x[vfPick(t, l+"nested_key", vfSortedKeys(x))] = nil
 			}
 		case vfList:
 			if len(x) == 0 || rapid.Bool().Draw(t, l+"nested_append") {
@@ -623,9 +639,9 @@ type vfTextStyle struct {
 }
 
 func vfDrawStyle(t *rapid.T) (st vfTextStyle) {
-	st.Shuffle = rapid.IntRange(0, 3).Draw(t, "text_shuffle") == 0
-	st.Flow = rapid.IntRange(0, 5).Draw(t, "text_flow") == 0
-	st.Prolog = rapid.SampledFrom([]string{"", "", "", "---\n", "# edited by hand\n", "%YAML 1.1\n---\n"}).Draw(t, "text_prolog")
+	st.Shuffle = vfChance(t, "text_shuffle", 25)
+	st.Flow = vfChance(t, "text_flow", 15)
+	st.Prolog = vfPick(t, "text_prolog", []string{"", "", "", "---\n", "# edited by hand\n", "%YAML 1.1\n---\n"})
 
 	return st
 }
@@ -690,6 +706,15 @@ func vfText(t *rapid.T, doc vfMap, st vfTextStyle) (b []byte, err error) {
 		n, err = vfToNode(t, doc, st, "doc", 0)
 		if err == nil {
 			b, err = yaml.Marshal(n)
+		}
+		if err == nil {
+			// The node encoder quotes some scalars (timestamps); if the text does
+			// not read back as the intended tree, use the plain encoding.
+			want, werr := vfNormalize(doc)
+			got, gerr := vfDecode(b)
+			if werr != nil || gerr != nil || vfDiff(want, got, "") != "" {
+				b, err = yaml.Marshal(doc)
+			}
 		}
 	}
 	if err != nil {
